@@ -30,6 +30,13 @@ Repeated(cs) == {cs \o d : d \in Subseqs(cs)} \cup {d \o cs : d \in Subseqs(cs)}
 WithEmpties(cs) == {<<"">> \o cs, cs \o <<"">>, <<"", "">> \o cs \o <<" ">>}
                    \cup {SubSeq(cs, 1, i) \o <<"">> \o SubSeq(cs, i + 1, Len(cs)) : i \in 1..Len(cs)}
 
+\* spellings of the star range: empty constraints before / after / on both sides, spaces around the star, both at once
+StarVariants(s) ==
+  ({Head5(s) \o JoinWith(q, "|") : q \in WithEmpties(<<"*">>) \cup {<<"", "*", "">>, <<" ", "*">>, <<"", "", "*">>, <<"*", " ", "">>}}
+   \cup {Head5(s) \o b : b \in Spaced("*") \cup SpacedAll(<<"*">>)}
+   \cup {Head5(s) \o b : b \in {"| * |", " |*", " | * ", "|  *", "* |"}})
+  \ {Head5(s) \o "*"}
+
 Variants(s, cs) ==
   LET body == JoinWith(cs, "|") IN
   ({Head5(s) \o JoinWith(q, "|") : q \in Reordered(cs) \cup Repeated(cs) \cup WithEmpties(cs)}
